@@ -1914,7 +1914,7 @@ func init() {
 	register(&checkDef{
 		id:    "C02",
 		level: "exploration",
-		rule:  "per (secret x cookie-expire x store) proxy: issued session cookies (tiny, OIDC-sized, binary nonce, Unicode, empty groups, unpadded, 2-part, thorough: 3-part, real logins), Redis ticket cookies, CSRF cookies (fixed / per-request name) x complete classes of alterations: substitution at every position x 8 character classes, whole alphabet at every timestamp/signature position, truncation to every length, deletion/insertion at every position, re-splitting at every position, extensions and re-encodings, timestamp edits, re-signing with every other secret, all field splices of two artefacts (and of ticket internals), all part sequences of length <= parts+1 over the parts of two artefacts, transplants to every loader of every deployment (other name, other secret string with the same AES key, other store, CSRF<->session), every MAC-input-preserving move of the name/value/timestamp boundaries, fabricated values; decided by SessionStore.Load / LoadCSRFCookie on a request parsed from raw bytes (accepted and every 53rd rejected case also through ServeHTTP /oauth2/userinfo); plus leak scan of every Set-Cookie value and raw Redis key/value and ciphertext-prefix reuse scan. distinct_nontrivial = distinct (proxy, artefact, loader, altered Cookie header) that differ from the issued header and are non-empty",
+		rule:  "per (secret x cookie-expire x store) proxy: issued session cookies (tiny, OIDC-sized, binary nonce, Unicode, empty groups, unpadded, 2-part, thorough: 3-part, real logins), Redis ticket cookies, CSRF cookies (fixed / per-request name) x complete classes of alterations: substitution at every position x 8 character classes, whole alphabet at every timestamp/signature position, truncation to every length, deletion/insertion at every position, re-splitting at every position, extensions and re-encodings, timestamp edits, re-signing with every other secret, all field splices of two artefacts (and of ticket internals), all part sequences of length <= parts+1 over the parts of two artefacts, transplants to every loader of every deployment (other name, other secret string with the same AES key, other store, CSRF<->session), every MAC-input-preserving move of the name/value/timestamp boundaries, fabricated values; decided by SessionStore.Load / LoadCSRFCookie on a request parsed from raw bytes (accepted and every 53rd rejected case also through ServeHTTP /oauth2/userinfo); plus leak scan of every Set-Cookie value and raw Redis key/value and ciphertext-prefix reuse scan; plus save sequences (c02_save_test.go): per deployment every (saving request: login callback, refresh, htpasswd form login, SessionStore.Save 1-part/2-part, sign-out, callback with planted CSRF cookie) x (planted value: forged ticket with new / existing ID, credential of another deployment, live / expired credential of a bystander) x 7 timestamp ages x 7 signatures x placement (name, name_0, split) x header order, each a fresh sequence through ServeHTTP: the issued credential is the user's, shares no value / signature / ticket ID / ticket key with a planted cookie that does not load, no written store entry is named in or opens with a key-sized window of the planted cookie, the planted cookie still does not load alone or next to the issued one, a bystander's credential is unaffected, an unverifiable CSRF cookie completes no login. distinct_nontrivial = distinct (proxy, artefact, loader, altered Cookie header) that differ from the issued header and are non-empty, plus distinct save sequences in which a cookie that is not a live credential was presented while a credential or store entry was written (or a login with an unverifiable CSRF cookie was refused)",
 		assumptions: []string{
 			"sentence 1 governs alterations presented to the issuing proxy's loader of the same kind (rejected, or equal to the issued artefact); accepted-equal cases whose text differs from the issued cookie are counted as ambiguous (a literal reading of sentence 2 would forbid them) and cannot fail",
 			"sentence 2 governs everything a loader did not issue: other kind, other cookie name, other secret string, fabricated values: any acceptance is a violation",
@@ -1923,13 +1923,18 @@ func init() {
 			"a panic inside a loader counts as a rejection here (crashes are C19's subject) and is listed in the notes",
 			"timestamp edits that are accepted while the unedited cookie is also acceptable are admissible (lifetime is C09's subject); only resurrection of an expired cookie by a timestamp edit is alarmed, under its own key",
 			"RSA keys are generated per process, so token bytes differ between shard processes; case numbering depends on positions only, every shard enumerates its residue class on its own structurally identical artefacts",
+			"save sequences: a planted cookie that is an unaltered credential of the same proxy inside its lifetime may be re-used by a save (documented: 'generate (or reuse an existing) ticket'): counted ambiguous, never alarmed; an unaltered but expired credential taken up again by a save is counted (save_takes_up_unaltered_credential_that_does_not_load) and not alarmed (lifetime is C09's subject); every other planted cookie was never produced by the proxy in that form and must leave no trace in what the proxy issues or stores",
+			"save sequences: cookies planted by a third party stay in the browser next to the issued ones (another Domain/Path attribute), so both header orders of planted+issued are presented afterwards",
 			"leak scan needles: every 12-byte window of every token, e-mail, user name, group, nonce, CSRF state/nonce/verifier and of the cookie secret (6..11-byte strings whole); strings shorter than 6 bytes are not searched",
 		},
 		shards: func(tier string) int { return 16 },
-		run:    func(c *Ctx) { concRunFor(c, "C02"); c02Main(c, nil) },
-		post:   c02ForgeryNonVacuity,
+		run:    func(c *Ctx) { concRunFor(c, "C02"); c02Main(c, nil); c02SaveMain(c, nil) },
+		post:   func(c *Ctx) { c02ForgeryNonVacuity(c); c02SaveNonVacuity(c) },
 		replay: func(c *Ctx, raw json.RawMessage) string {
 			if out, ok := concReplayFor(c, "C02", raw); ok {
+				return out
+			}
+			if out, ok := c02SaveReplay(c, raw); ok {
 				return out
 			}
 			var cs c02Case
